@@ -27,6 +27,7 @@ type yieldState struct {
 	held    map[*websocket.Conn]bool // model of closeMu: a goroutine is past the gate
 	names   map[*websocket.Conn]string
 	waiters map[*websocket.Conn][]chan struct{} // goroutines blocked at the closeMu gate, in arrival order
+	seen    map[string]int                      // how often each site was reached (enabled or not)
 	live    bool
 }
 
@@ -35,7 +36,7 @@ type yieldState struct {
 // library was built with -tags verif.
 func (r *Run) DrawYields() {
 	t := r.Tape
-	y := &yieldState{enabled: map[string]bool{}, held: map[*websocket.Conn]bool{}, names: map[*websocket.Conn]string{}, waiters: map[*websocket.Conn][]chan struct{}{}}
+	y := &yieldState{enabled: map[string]bool{}, held: map[*websocket.Conn]bool{}, names: map[*websocket.Conn]string{}, waiters: map[*websocket.Conn][]chan struct{}{}, seen: map[string]int{}}
 	mode := t.Weighted(4, 4, 2) // 0 off, 1 a subset, 2 all sites
 	y.pct = []int{15, 40, 80}[t.Draw(3)]
 	switch mode {
@@ -100,6 +101,9 @@ func (r *Run) yield(point string, c *websocket.Conn) {
 			return
 		}
 	}
+	r.S.Lock()
+	y.seen[point]++
+	r.S.Unlock()
 	if !y.enabled[point] {
 		return
 	}
@@ -126,5 +130,21 @@ func (r *Run) note(point string, c *websocket.Conn) {
 		}
 		r.S.Unlock()
 		r.S.Kick()
+	}
+}
+
+// YieldSeenLocked reports how often a yield site has been reached in this run
+// (for readiness predicates, which run with the simulator lock held).
+func (r *Run) YieldSeenLocked(point string) int {
+	if r.y == nil {
+		return 0
+	}
+	return r.y.seen[point]
+}
+
+// ForceYield enables one site for this run (after DrawYields).
+func (r *Run) ForceYield(point string) {
+	if r.y != nil {
+		r.y.enabled[point] = true
 	}
 }
